@@ -134,6 +134,35 @@ Inductive label :=
 | LWatchInit (f : nat) (a : answer) | LWatchTick (f : nat) (r : wres)
 | LFnHandler (f : nat).               (* the exit handler's critical section *)
 
+(* ---- the coordinator connection layer under the [coordinator] interface (makeConnect,
+   timeoutCoordinator): before each call the connection's deadline is armed, so an unanswered
+   request fails after Timeout — except JoinGroup (the coordinator may hold it for the rebalance
+   timeout) and SyncGroup (the leader is given the session timeout) ---- *)
+Inductive ccall := CFindCoordinator | CJoinGroup | CSyncGroup | CLeaveGroup | CHeartbeat
+                 | COffsetFetch | COffsetCommit | CReadPartitions.
+Inductive dclass := DTimeout | DTimeoutRebalance | DTimeoutSession.
+Definition deadline_of_call (c : ccall) : dclass :=
+  match c with
+  | CJoinGroup => DTimeoutRebalance
+  | CSyncGroup => DTimeoutSession
+  | _ => DTimeout
+  end.
+Definition deadline_ms (timeout rebalance session : nat) (c : ccall) : nat :=
+  match deadline_of_call c with
+  | DTimeout => timeout
+  | DTimeoutRebalance => timeout + rebalance
+  | DTimeoutSession => timeout + session
+  end.
+(* makeConnect: the bootstrap brokers are dialled in order; the first reachable one is used *)
+Fixpoint connect (up : list bool) : option nat :=
+  match up with
+  | [] => None
+  | true :: _ => Some O
+  | false :: t => option_map S (connect t)
+  end.
+Definition dial_attempts (up : list bool) : nat :=
+  match connect up with Some i => S i | None => length up end.
+
 (* ---- small helpers ---- *)
 Fixpoint upd {A} (i : nat) (x : A) (l : list A) : list A :=
   match l, i with
